@@ -60,6 +60,22 @@ def run_cell(cell, rec, seed):
     x_other = np.asarray(p.sample(key2, n))
     rec.true("different key -> different draws", not np.array_equal(x_other, x),
              mech="sample-ignores-key", detail=info)
+    # ---- every form of key jax hands out: a new-style typed key of the same seed (and keys
+    # derived by split) index the same stream as the legacy uint32 key
+    seed_k = int(rng.integers(0, 2 ** 31))
+    xk_old = lc.call(rec, "sample", lambda: np.asarray(p.sample(jax.random.PRNGKey(seed_k), 8)),
+                     info)
+    xk_new = lc.call(rec, "sample[typed key]",
+                     lambda: np.asarray(p.sample(jax.random.key(seed_k), 8)), info)
+    if xk_old is not None and xk_new is not None:
+        rec.close("typed key = legacy key of the same seed", xk_new, xk_old, exact=True,
+                  detail=info, mech="sample-typed-key-differs")
+    sub_new = jax.random.split(jax.random.key(seed_k), 2)[1]
+    sub_old = jax.random.split(jax.random.PRNGKey(seed_k), 2)[1]
+    xs_new = lc.call(rec, "sample[split typed key]", lambda: np.asarray(p.sample(sub_new, 8)), info)
+    if xs_new is not None:
+        rec.close("split typed key = split legacy key", xs_new, np.asarray(p.sample(sub_old, 8)),
+                  exact=True, detail=info, mech="sample-typed-key-differs")
     # ---- structure: affine image of the key's normal stream
     z = np.asarray(jax.random.normal(key, (n, R, D)))
     for r in range(R):
